@@ -316,3 +316,24 @@ func VerifRegexpCacheStats() (size, capacity, resets int) {
 
 // VerifFormatNumber renders a float64 the way asString does.
 func VerifFormatNumber(f float64) string { return asString(nil, f) }
+
+// VerifSelectContext draws the nodes of expr's query with root as the context node by calling the
+// query's Select directly (NodeIterator.MoveNext would move the context node onto every result) and
+// reports how many nodes were drawn (at most max) and after how many of them the context node of the
+// evaluation was first found on another node than root (-1: never).
+func VerifSelectContext(expr *Expr, root NodeNavigator, max int) (moved int, n int) {
+	t := &NodeIterator{query: expr.q.Clone(), node: root.Copy()}
+	key := getHashCode(root.Copy())
+	moved = -1
+	for n < max {
+		x := t.query.Select(t)
+		if moved < 0 && getHashCode(t.node.Copy()) != key {
+			moved = n
+		}
+		if x == nil {
+			break
+		}
+		n++
+	}
+	return moved, n
+}
